@@ -21,6 +21,7 @@ import (
 	"encoding/binary"
 	"fmt"
 	"net"
+	"runtime"
 	"sync"
 	"sync/atomic"
 	"time"
@@ -570,6 +571,97 @@ func pendingReadAtClose(res *vlib.Result, i int) {
 	}
 }
 
+// massAtClose: thousands of ReadFrom calls parked on an empty queue, and
+// WriteTo/QueueIncoming callers spinning, at the moment of Close. While Close
+// wakes the parked readers the first of them already run on other
+// processors, so whatever Close publishes after the wake-up signal is read
+// before it is there. Every call that returns after Close began must fail
+// with an error; none may panic.
+func massAtClose(res *vlib.Result, i int) {
+	res.Eval(1)
+	id := fmt.Sprintf("queue-mass-at-close/%d", i)
+	nReaders := 1000 + 1000*(i%4)
+	q := newQPC()
+	var wg sync.WaitGroup
+	var parkedN, failed, panicked, succeeded int64
+	var firstPanic atomic.Value
+	guard := func(op string, f func() error) {
+		defer func() {
+			if v := recover(); v != nil {
+				atomic.AddInt64(&panicked, 1)
+				firstPanic.CompareAndSwap(nil, fmt.Sprintf("%s: %v", op, v))
+			}
+		}()
+		if err := f(); err != nil {
+			atomic.AddInt64(&failed, 1)
+		} else {
+			atomic.AddInt64(&succeeded, 1)
+		}
+	}
+	for k := 0; k < nReaders; k++ {
+		wg.Add(1)
+		go func() {
+			defer wg.Done()
+			atomic.AddInt64(&parkedN, 1)
+			guard("ReadFrom", func() error {
+				_, _, err := q.ReadFrom(make([]byte, 16))
+				return err
+			})
+		}()
+	}
+	stop := make(chan struct{})
+	var closing int32
+	var lateOK int64
+	for k := 0; k < 4; k++ {
+		wg.Add(1)
+		go func(k int) {
+			defer wg.Done()
+			a := fakeAddr(fmt.Sprintf("mass-%d", k))
+			for {
+				select {
+				case <-stop:
+					return
+				default:
+				}
+				began := atomic.LoadInt32(&closing) == 2
+				guard("WriteTo", func() error {
+					_, err := q.WriteTo([]byte{1, 2, 3}, a)
+					if err == nil && began {
+						atomic.AddInt64(&lateOK, 1)
+					}
+					return err
+				})
+			}
+		}(k)
+	}
+	for atomic.LoadInt64(&parkedN) < int64(nReaders) {
+		runtime.Gosched()
+	}
+	time.Sleep(2 * time.Millisecond) // let most of them park
+	atomic.StoreInt32(&closing, 1)
+	guard("Close", func() error { q.Close(); return nil })
+	atomic.StoreInt32(&closing, 2)
+	time.Sleep(time.Millisecond)
+	close(stop)
+	done := make(chan struct{})
+	go func() { wg.Wait(); close(done) }()
+	select {
+	case <-done:
+	case <-time.After(20 * time.Second):
+		res.Inconcl(id + ": readers pending at Close did not all return within 20 s")
+		return
+	}
+	res.Obs("queue_reads_pending_at_mass_close", int64(nReaders))
+	res.Obs("queue_mass_close_rounds", 1)
+	if n := atomic.LoadInt64(&panicked); n > 0 {
+		res.Violatef("panic:queue-operation-racing-with-Close", map[string]interface{}{"case": id, "readers": nReaders}, "%d operations panicked while the connection was being closed; first: %v", n, firstPanic.Load())
+	}
+	if n := atomic.LoadInt64(&lateOK); n > 0 {
+		res.Violatef("after-close:WriteTo-succeeds:mass", map[string]interface{}{"case": id}, "%d WriteTo calls that began after Close returned succeeded", n)
+	}
+	res.Distinct(fmt.Sprintf("mass-close/%d", nReaders))
+}
+
 // concurrentQueue: producers and consumers running concurrently; per-address
 // FIFO without loss (fewer packets than the capacity are ever pending).
 func concurrentQueue(res *vlib.Result, r *vlib.Rand, i int) {
@@ -701,6 +793,10 @@ func runQueue(res *vlib.Result, root *vlib.Rand) {
 	for i := 0; i < vlib.Scale(10, 100); i++ {
 		concurrentQueue(res, root.SplitN("concurrent", i), i)
 	}
+	for i := 0; i < vlib.Scale(12, 120); i++ {
+		massAtClose(res, i)
+	}
+	res.RequireObs("queue_mass_close_rounds", 6)
 	res.RequireObs("queue_cases", 300)
 	res.RequireObs("queue_packets_delivered_after_buffer_mutation", 5000)
 	res.RequireObs("queue_cases_with_capacity_burst", 20)
